@@ -114,6 +114,14 @@ def check_invoke_once(ctx, fb, rule):
         if f.qn == 'yaclib::detail::Core::CallResolveVoid':
             key = 'R-INVOKE Core::CallResolveVoid'
             invs = functor_invocations(f)
+            if not invs:
+                # the invocation may have been extracted into a private helper of the same class
+                for c in f.calls():
+                    g = fb.fn.get(c.get('ck'))
+                    if g is not None and g.cfg is not None and g.clsq == f.clsq and not g.n.startswith('CallResolve') \
+                            and g.n not in ('Done', 'CallImpl', 'SetResult'):
+                        invs += functor_invocations(g)
+                        f_ret_helper = g
             ctx.instance(rule, key + ' :: ' + f.cls[:120], dict(invocations=len(invs), returns=f.ret[:60]))
             n += 1
             if len(invs) != 1:
@@ -126,7 +134,7 @@ def check_invoke_once(ctx, fb, rule):
                 if f.ret != 'yaclib::Unit':
                     ctx.report(rule, key, f.where, 'a void callback that ran must complete the step with Unit (a '
                                'value); it completes with %s' % f.ret, 'instantiation: ' + f.full[:300])
-            else:
+            elif invs[0]['i'] < len(f.nodes) and f.nodes[invs[0]['i']] is invs[0]:
                 direct = [r for r in rets if invs[0]['i'] in [f.strip(r['ch'][0])] + list(f.descendants(r['ch'][0]))]
                 if len(rets) != 1 or not direct:
                     ctx.report(rule, key, f.where, 'the step must complete with what its callback returned',
